@@ -141,8 +141,11 @@ func C03() *runner.Property {
 		Assumptions: []string{"staged remote versions are stamped in 2001 and cannot win last-writer-wins against anything the application writes now", "crash points and schedules are at yield-point granularity (LMDB transactions are atomic)"},
 		BatchSize:   12, CaseTimeout: 90e9,
 		MinNonTrivial: func(tier string) int { return 100 },
-		Cases:         func(tier string, seed int64) []runner.Case { return scnCases(tier, seed, false) },
+		Cases:         func(tier string, seed int64) []runner.Case { return append(scnCases(tier, seed, false), restartCases()...) },
 		Run: func(c runner.Case, env *runner.Env) (res runner.Result) {
+			if c.Family == "restart" {
+				return runRestartCase(c, env)
+			}
 			var s Scn
 			runner.Params(c, &s)
 			res.Key = c.ID
@@ -159,8 +162,11 @@ func C09() *runner.Property {
 		Assumptions: []string{"the forced snapshot interval is disabled, so nothing but change detection can publish a commit", "Store failures stay below the retry budget (5 attempts)"},
 		BatchSize:   12, CaseTimeout: 90e9,
 		MinNonTrivial: func(tier string) int { return 100 },
-		Cases:         func(tier string, seed int64) []runner.Case { return scnCases(tier, seed, true) },
+		Cases:         func(tier string, seed int64) []runner.Case { return append(scnCases(tier, seed, true), restartCases()...) },
 		Run: func(c runner.Case, env *runner.Env) (res runner.Result) {
+			if c.Family == "restart" {
+				return runRestartCase(c, env)
+			}
 			var s Scn
 			runner.Params(c, &s)
 			res.Key = c.ID
@@ -168,6 +174,31 @@ func C09() *runner.Property {
 			return
 		},
 	}
+}
+
+// restartCases: commits made while the syncer is down (incl. overwrites of keys the own old snapshot holds) or during
+// the start-up phases of the restarted syncer, with the own old snapshot in the bucket.
+func restartCases() []runner.Case {
+	var cs []runner.Case
+	for _, native := range []bool{true, false} {
+		for _, emptied := range []bool{false, true} {
+			for _, wa := range []string{"before-start", "startup.listed", "startup.before_first_send", "loop.top", "load.before_txn"} {
+				for _, gate := range []int{0, 3} {
+					sc := RestartScn{Native: native, CrashPoint: "loop.end", CrashNth: 1, Emptied: emptied, GateIters: gate, WriteAt: wa, CheckWrites: true}
+					cs = append(cs, runner.MkCase("restart", sc.ID(), sc))
+				}
+			}
+		}
+	}
+	return cs
+}
+
+func runRestartCase(c runner.Case, env *runner.Env) (res runner.Result) {
+	var sc RestartScn
+	runner.Params(c, &sc)
+	res.Key = c.ID
+	RunRestart(sc, env, &res)
+	return
 }
 
 // C10LoopCases are the forced-schedule scenarios judged by the upload-causality monitor.
